@@ -203,6 +203,56 @@ func runC19(c *Ctx) {
 		})
 	}
 
+	c.rule("C19-R13", "LCK: the dev server swaps its handler while requests are in flight, and some requests never end (the live-reload event stream of an open browser tab, a WebSocket): in cmd/glyph no mutex is held - not even shared - while a request is handed to the current handler (a call of http.Handler.ServeHTTP or of an http.HandlerFunc value). A reader lock held for the length of a request makes the next successful reload wait for ever for the writer lock, and every new request queue up behind that waiting writer")
+	{
+		e13 := newLck(c, &lckConfig{rule: "C19-R13", pkgs: []string{glyphCmd}, guards: nil})
+		n := 0
+		for _, fn := range c.srcFuncs(glyphCmd) {
+			if !strings.HasSuffix(c.Fset.Position(fn.Pos()).Filename, "/server.go") {
+				continue
+			}
+			var at map[ssa.Instruction]lockState
+			k := 0
+			eachInstr(fn, func(_ *ssa.BasicBlock, _ int, ins ssa.Instruction) {
+				cl, ok := ins.(ssa.CallInstruction)
+				if !ok {
+					return
+				}
+				isServe := false
+				cc := cl.Common()
+				if cc.IsInvoke() && cc.Method.Name() == "ServeHTTP" {
+					isServe = true
+				}
+				if !cc.IsInvoke() && typeIs(cc.Value.Type(), "net/http", "HandlerFunc") {
+					isServe = true
+				}
+				if sf := cc.StaticCallee(); sf != nil && sf.Name() == "ServeHTTP" {
+					isServe = true
+				}
+				if !isServe {
+					return
+				}
+				if at == nil {
+					at, _ = e13.analyse(fn)
+				}
+				n++
+				k++
+				held := ""
+				for cls, m := range at[ins.(ssa.Instruction)] {
+					if m > 0 {
+						held = cls
+					}
+				}
+				if _, isDefer := ins.(*ssa.Defer); isDefer {
+					return
+				}
+				c.ob("C19-R13", fnKey(fn)+"#request-served-with-no-lock-held-"+itoa(k), ins.Pos(), held == "", "a request is handed to the current handler while "+held+" is held: a request that never ends (the /__livereload event stream, a WebSocket) keeps the lock, the next successful reload blocks on the writer side for ever, and every new request blocks behind the waiting writer")
+			})
+		}
+		c.Sites["C19-R13#handler-invocations"] = n
+		c.ob("C19-R13", glyphCmd+"#handler-invocations-examined", token.NoPos, n >= 1, "no handler invocation found in cmd/glyph/server.go: the handler swap is not where the rule expects it")
+	}
+
 	c.rule("C19-R6", "PAIR: every Lock/RLock in cmd/glyph and pkg/hotreload is released on every path to a return: a failed reload cannot leave the manager's mutex held and block all later reloads; REACQ: no method calls, while it holds its receiver's mutex, a method of the same receiver that acquires that mutex again (sync mutexes are not re-entrant; a second RLock blocks once a writer waits)")
 	c.Sites["C19-R6#acquire-sites"] = lockReleaseAudit(c, "C19-R6", []string{glyphCmd, "pkg/hotreload"})
 	c.floor("C19-R6", 6)
